@@ -89,7 +89,171 @@ fn build(words: &[&str]) -> Result<Srv, String> {
     }
 }
 
+// ---------------------------------------------------------------------------------------------
+// "cookie fs": a tiny read-only FUSE file system mounted on the host (readdir serve <mnt> <spec>)
+// whose directories carry arbitrary d_off cookies (e.g. above i64::MAX, like NFS) and "." / ".."
+// records at arbitrary places.  A PassthroughFs exported over that mount then has a host directory
+// that exercises the lseek-EINVAL / linear-scan fallback of do_readdir on the real code.
+// spec file: one line per entry: <dir name> <hex entry name> <ino> <d_off> <d_type>
+mod cookiefs {
+    use fuse_backend_rs::abi::fuse_abi::stat64;
+    use fuse_backend_rs::api::filesystem::{Context, DirEntry, Entry, FileSystem, FsOptions, OpenOptions};
+    use std::ffi::CStr;
+    use std::io;
+    use std::time::Duration;
+
+    pub struct Ent {
+        pub name: Vec<u8>,
+        pub ino: u64,
+        pub off: u64,
+        pub ty: u32,
+    }
+    pub struct CookieFs {
+        pub dirs: Vec<(String, Vec<Ent>)>, // directory i has inode 2 + i
+    }
+    const TTL: Duration = Duration::from_secs(3600);
+
+    impl CookieFs {
+        fn attr(&self, ino: u64, dir: bool) -> stat64 {
+            let mut st: stat64 = unsafe { std::mem::zeroed() };
+            st.st_ino = ino;
+            st.st_mode = if dir { libc::S_IFDIR | 0o755 } else { libc::S_IFREG | 0o644 };
+            st.st_nlink = if dir { 2 } else { 1 };
+            st.st_blksize = 4096;
+            st
+        }
+        fn entry(&self, ino: u64, dir: bool) -> Entry {
+            Entry { inode: ino, generation: 0, attr: self.attr(ino, dir), attr_flags: 0, attr_timeout: TTL, entry_timeout: TTL }
+        }
+        fn is_dir(&self, ino: u64) -> bool {
+            ino == 1 || (ino >= 2 && ((ino - 2) as usize) < self.dirs.len())
+        }
+    }
+
+    impl FileSystem for CookieFs {
+        type Inode = u64;
+        type Handle = u64;
+        fn init(&self, _capable: FsOptions) -> io::Result<FsOptions> {
+            Ok(FsOptions::empty())
+        }
+        fn lookup(&self, _ctx: &Context, parent: u64, name: &CStr) -> io::Result<Entry> {
+            let n = name.to_bytes();
+            if parent == 1 {
+                for (i, (d, _)) in self.dirs.iter().enumerate() {
+                    if d.as_bytes() == n {
+                        return Ok(self.entry(2 + i as u64, true));
+                    }
+                }
+            } else if self.is_dir(parent) {
+                for e in self.dirs[(parent - 2) as usize].1.iter() {
+                    if e.name == n && n != b"." && n != b".." {
+                        return Ok(self.entry(e.ino, false));
+                    }
+                }
+            }
+            Err(io::Error::from_raw_os_error(libc::ENOENT))
+        }
+        fn getattr(&self, _ctx: &Context, inode: u64, _h: Option<u64>) -> io::Result<(stat64, Duration)> {
+            Ok((self.attr(inode, self.is_dir(inode)), TTL))
+        }
+        fn opendir(&self, _ctx: &Context, _inode: u64, _flags: u32) -> io::Result<(Option<u64>, OpenOptions)> {
+            Ok((None, OpenOptions::empty()))
+        }
+        fn releasedir(&self, _ctx: &Context, _inode: u64, _flags: u32, _handle: u64) -> io::Result<()> {
+            Ok(())
+        }
+        fn access(&self, _ctx: &Context, _inode: u64, _mask: u32) -> io::Result<()> {
+            Ok(())
+        }
+        fn readdir(
+            &self,
+            _ctx: &Context,
+            inode: u64,
+            _handle: u64,
+            _size: u32,
+            offset: u64,
+            add_entry: &mut dyn FnMut(DirEntry) -> io::Result<usize>,
+        ) -> io::Result<()> {
+            let tmp: Vec<Ent>;
+            let ents: &Vec<Ent> = if inode == 1 {
+                tmp = self
+                    .dirs
+                    .iter()
+                    .enumerate()
+                    .map(|(i, (d, _))| Ent { name: d.as_bytes().to_vec(), ino: 2 + i as u64, off: 1 + i as u64, ty: libc::DT_DIR as u32 })
+                    .collect();
+                &tmp
+            } else if self.is_dir(inode) {
+                &self.dirs[(inode - 2) as usize].1
+            } else {
+                return Err(io::Error::from_raw_os_error(libc::ENOTDIR));
+            };
+            let start = if offset == 0 {
+                0
+            } else {
+                match ents.iter().position(|e| e.off == offset) {
+                    Some(i) => i + 1,
+                    None => ents.len(),
+                }
+            };
+            for e in ents[start..].iter() {
+                match add_entry(DirEntry { ino: e.ino, offset: e.off, type_: e.ty, name: &e.name }) {
+                    Ok(0) => break,
+                    Ok(_) => {}
+                    Err(err) => return Err(err),
+                }
+            }
+            Ok(())
+        }
+    }
+
+    pub fn parse(spec: &str) -> CookieFs {
+        let mut dirs: Vec<(String, Vec<Ent>)> = Vec::new();
+        for line in spec.lines() {
+            let w: Vec<&str> = line.split_whitespace().collect();
+            if w.len() < 5 {
+                if w.len() == 1 && !dirs.iter().any(|(d, _)| d == w[0]) {
+                    dirs.push((w[0].to_string(), Vec::new()));
+                }
+                continue;
+            }
+            let e = Ent { name: super::unhex(w[1]), ino: w[2].parse().unwrap(), off: w[3].parse().unwrap(), ty: w[4].parse().unwrap() };
+            match dirs.iter_mut().find(|(d, _)| d == w[0]) {
+                Some((_, v)) => v.push(e),
+                None => dirs.push((w[0].to_string(), vec![e])),
+            }
+        }
+        CookieFs { dirs }
+    }
+}
+
+fn serve(mnt: &str, specfile: &str) {
+    use fuse_backend_rs::transport::FuseSession;
+    let fs = cookiefs::parse(&std::fs::read_to_string(specfile).expect("spec file"));
+    let server = Server::new(Arc::new(fs));
+    let mut se = FuseSession::new(std::path::Path::new(mnt), "cookiefs", "", true).expect("session");
+    se.mount().expect("mount");
+    let mut ch = se.new_channel().expect("channel");
+    println!("mounted");
+    std::io::stdout().flush().unwrap();
+    loop {
+        match ch.get_request() {
+            Ok(Some((reader, writer))) => {
+                let _ = server.handle_message(reader, writer.into(), None, None);
+            }
+            Ok(None) => break,
+            Err(_) => break,
+        }
+    }
+    let _ = se.umount();
+}
+
 fn main() {
+    let args: Vec<String> = std::env::args().collect();
+    if args.len() == 4 && args[1] == "serve" {
+        serve(&args[2], &args[3]);
+        return;
+    }
     let stdin = std::io::stdin();
     let stdout = std::io::stdout();
     let mut out = stdout.lock();
